@@ -792,6 +792,17 @@ def replay(path):
                 expect(world, node, cfg, {"sign": cfg.get("sign-script") or "@ENV@", "kms": cfg.get("kms-script") or "@ENV@", "alg": "eddsa", "ctx": None}, exp_calls)
                 if calls != norm_calls(world, cfg, inp["environment"], exp_calls):
                     why = f"sign_envelope calls {calls} differ from the expected calls"
+        elif inp["op"].startswith("sign single-level (preparing"):
+            keys = sl.Keys(os.path.join(tmp, "keys"), n=2)
+            data = bytes.fromhex(inp["envelope"])
+            r = sl.lib_single(tmp, data, keys.for_alg(inp["alg"], 1), inp["key_id"], inp["alg"], keys.dir, "error", name="pre")
+            signed = False
+            if r[0] == "ok" and r[1] is not None:
+                try:
+                    signed = any(sl.is_sign1(v) for v, _ in sl.Envelope(r[1]).wrapper_elements())
+                except Exception:  # noqa: BLE001
+                    signed = False
+            why = None if (r[0] != "ok" or signed) else "the command succeeded but the output carries no signature block"
         elif inp["op"] == "key-type":
             print("key-type cases are regenerated by ./check C09")
             return run("quick", recd.get("seed", 0))
